@@ -41,7 +41,7 @@ def gen_package(rng, nm=None, nap=None, nw=None, nfilt=None, positive=True):
             fl.append(list(acc))
             acc = [x + b * rng.dyadic(0.0, 1.0, 6) for x, b in zip(acc, base)]
         er = [[x * rng.dyadic(0.001, 0.2, 8) for x in row] for row in fl]
-        seds[n] = dict(flux=fl, err=er, order=rng.choice(['incr', 'decr']))
+        seds[n] = dict(flux=fl, err=er, order=rng.choice(['incr', 'decr']), stored=rng.choice(['incr', 'decr']))     # order: as handed to SED.write; stored: as it lies in the file
     filters = []
     for k in range(nfilt or rng.randint(1, 3)):
         lo, hi = nus[0], nus[-1]
@@ -146,10 +146,28 @@ def make_sed(pkg, n, unit='mJy'):
     return s
 
 
+def store_decreasing(path):
+    """SED.write always stores a spectrum in increasing frequency; packages in the wild (and the property's quantifier) also hold files
+    stored the other way round: reverse the WAVELENGTHS rows and the spectral axis of the SEDS arrays of a written file"""
+    import numpy as np
+    from astropy.io import fits
+    with fits.open(path, mode='update', memmap=False) as h:
+        w = np.array(h['WAVELENGTHS'].data).copy()
+        for col in w.dtype.names:
+            h['WAVELENGTHS'].data[col][:] = w[col][::-1]
+        sd = np.array(h['SEDS'].data).copy()
+        for col in sd.dtype.names:
+            h['SEDS'].data[col][:] = sd[col][:, ::-1]
+        h.flush()
+
+
 def write_v1(d, pkg, logd_step=0.02):
     os.mkdir(os.path.join(d, 'seds'))
     for n in pkg['names']:
-        make_sed(pkg, n).write(os.path.join(d, 'seds', pkg['fnames'][n]))
+        p = os.path.join(d, 'seds', pkg['fnames'][n])
+        make_sed(pkg, n).write(p)
+        if pkg['seds'][n].get('stored') == 'decr':
+            store_decreasing(p)
     write_conf(d, pkg['aps'] is not None, logd_step=logd_step)
     write_params(d, pkg)
 
